@@ -134,6 +134,18 @@ func NewUDPConn(config *AllocationConfig) *UDPConn {
 // see SetDeadline and SetReadDeadline.
 func (c *UDPConn) ReadFrom(p []byte) (n int, addr net.Addr, err error) {
 	for {
+		// A closed conn reports the close, whatever the deadline says.
+		select {
+		case <-c.closeCh:
+			return 0, nil, &net.OpError{
+				Op:   "read",
+				Net:  c.LocalAddr().Network(),
+				Addr: c.LocalAddr(),
+				Err:  errClosed,
+			}
+		default:
+		}
+
 		// A deadline that has passed fails every read until it is moved,
 		// not only the ones that were blocked when it expired.
 		select {
